@@ -113,6 +113,6 @@ def inject(workload, base, rel_paths, op, scratch):
             break
     # sequential workloads: the traced interpreter itself dies (status 137); parallel ones: a child is killed and the
     # parent ends with an error of its own
-    killed = bool(victims) and (p.returncode in (137, -9) or op.get("proc", 0) > 0)
+    killed = bool(victims) and (p.returncode in (137, -9) or workload.endswith("p"))
     return dict(rc=p.returncode, killed=killed, matched=killed and bool(last),
                 tail=last.replace(" <unfinished ...>", " = ?").strip()[:200], victims=len(victims))
